@@ -172,7 +172,13 @@ pub fn generate(seed: u64, idx: u64) -> Scenario {
                     }
                 }
             }
-            (Some(_), 11) => s.close(&uri),
+            (Some(_), 11) => {
+                if rng.chance(500) {
+                    s.close(&uri);
+                } else {
+                    s.client_chatter(rng.below(5));
+                }
+            }
             (Some(text), _) => {
                 let m = *rng.pick(&METHODS);
                 let (l, c) = gen::request_position(&mut rng, &text);
